@@ -22,7 +22,13 @@
      potentially visible declarations become visible unless they conflict: if all are
      overloadable they all are; a single non-overloadable one is; two or more with a
      non-overloadable among them hide each other (CONFLICT);
-   - an overloaded use resolves to the unique candidate whose parameter and result types fit. *)
+   - an overloaded use resolves to the unique candidate whose parameter and result types fit.
+
+   One reading choice (as in the validated resolver and in the implementation): "directly visible
+   declarations hide use-visible ones" is taken over the declarations that ARE directly visible at
+   the point.  An outer constant c hidden by an inner function c does not keep a use-visible
+   function c of another profile from being visible, although the point lies in the immediate scope
+   of the constant (LRM 12.4 a) read literally would hide it). *)
 From Coq Require Import List NArith Bool.
 Import ListNotations.
 Open Scope N_scope.
@@ -341,7 +347,33 @@ Fixpoint family_units (t : utable) (us : list unit) : bool :=
   | u :: r =>
       family_items t (unit_chain t u) (ubody u) && family_units (fst (spec_unit t u)) r
   end.
-Definition family_program (p : program) : bool := family_units std_table p.
+(* entity ids identify entities: pairwise distinct over the whole program, and the literal list
+   of a type names declared literals of that type *)
+Definition item_ents (it : item) : list ent :=
+  match it with
+  | IDecl e => [e]
+  | IOpenFun f p => [f; p]
+  | _ => []
+  end.
+Definition program_ents (p : program) : list ent :=
+  decls_of std_decls ++ flat_map (fun u => flat_map item_ents (ubody u)) p.
+Fixpoint distinct_ids (l : list ent) : bool :=
+  match l with
+  | [] => true
+  | e :: r => negb (existsb (fun x => eid x =? eid e) r) && distinct_ids r
+  end.
+Definition kind_is_lit (t : ty) (e : ent) : bool :=
+  match ekind e with KLit t' => ty_eqb t t' | _ => false end.
+Definition lits_declared (all : list ent) (e : ent) : bool :=
+  match ekind e with
+  | KType t lits =>
+      forallb (fun il => existsb (fun x => (eid x =? fst il) && (edes x =? snd il) && kind_is_lit t x) all) lits
+  | _ => true
+  end.
+Definition ids_ok (p : program) : bool :=
+  let all := program_ents p in distinct_ids all && forallb (lits_declared all) all.
+
+Definition family_program (p : program) : bool := ids_ok p && family_units std_table p.
 
 (* statistics for the non-triviality rule: number of directly visible and of potentially
    visible declarations of the site's designator *)
